@@ -9,7 +9,7 @@ import subprocess
 import sys
 
 V = "/verif"
-WT = os.environ.get("CONFIRM_WT", "/tmp/wt/CF")
+WT = os.environ.get("CONFIRM_WT", "/tmp/wt/CFX")
 
 
 def sh(cmd):
